@@ -171,7 +171,6 @@ CANCEL_LIMIT = 4000
 class SB:
     """symbolic boolean. z: z3 BoolRef; fe: env->bool; st/sf strict variants when decided T/F"""
     __slots__ = ("z", "fe", "st", "sf", "atoms", "structural")
-    __array_ufunc__ = None
 
     def __init__(self, z, fe, st=None, sf=None, atoms=frozenset(), structural=False):
         self.z, self.fe, self.st, self.sf, self.atoms, self.structural = z, fe, st, sf, atoms, structural
@@ -319,7 +318,6 @@ def indicator(b) -> "SR":
 class SR:
     """real scalar in partially factored rational normal form"""
     __slots__ = ("n", "d", "root", "_z", "_k")
-    __array_ufunc__ = None
     _zero = None
 
     def __init__(self, n: P.Poly, d: dict, root: Optional["SR"] = None):
@@ -614,6 +612,11 @@ class SR:
             }.get(s, {})
             if op in known:
                 return known[op]
+        # canonical orientation: the same comparison written either way round gives the same z3 term
+        lead = max(dlt.n, key=lambda m: (sum(e for _, e in m), m))
+        if dlt.n[lead] < 0:
+            dlt = -dlt
+            op = {"lt": "gt", "le": "ge", "gt": "lt", "ge": "le", "eq": "eq", "ne": "ne"}[op]
         t = dlt.signpoly_z3()
         zero = z3.RealVal(0)
         fe_d = dlt.feval
@@ -1126,7 +1129,6 @@ def where(c, a, b):
 
 class SC:
     __slots__ = ("re", "im")
-    __array_ufunc__ = None
 
     def __init__(self, re, im):
         self.re = lift_strict(re) if not isinstance(re, SR) else re
@@ -1297,7 +1299,6 @@ def as_sc(x) -> SC:
 class SAngle:
     """an angle known through its cosine and sine (both SR).  value modulo 2*pi."""
     __slots__ = ("c", "s", "kind")
-    __array_ufunc__ = None
 
     def __init__(self, c, s, kind="free"):
         self.c, self.s, self.kind = c, s, kind
@@ -1383,7 +1384,6 @@ class SAngle:
 class SImAngle:
     """i * angle; only exp() is meaningful"""
     __slots__ = ("a",)
-    __array_ufunc__ = None
 
     def __init__(self, a):
         self.a = a
